@@ -3153,9 +3153,27 @@ func (b *Bundle) Compile(log logger.Log, timer *helpers.Timer, mangleCache map[s
 					sourceAbsPaths[absPathKey] = sourceIndex
 				}
 			}
+			realDirs := make(map[string]string)
 			for _, outputFile := range outputFiles {
 				absPathKey := canonicalFileSystemPathForWindows(outputFile.AbsPath)
-				if sourceIndex, ok := sourceAbsPaths[absPathKey]; ok {
+				sourceIndex, ok := sourceAbsPaths[absPathKey]
+				if !ok {
+					// The output directory may be reached through a symlink (e.g. the
+					// output directory is a symlink to the source directory). Input
+					// paths have their symlinks resolved, so also check the output
+					// path with the symlinks in its directory resolved.
+					dir := b.fs.Dir(outputFile.AbsPath)
+					realDir, cached := realDirs[dir]
+					if !cached {
+						realDir, _ = b.fs.EvalSymlinks(dir)
+						realDirs[dir] = realDir
+					}
+					if realDir != "" && realDir != dir {
+						realPathKey := canonicalFileSystemPathForWindows(b.fs.Join(realDir, b.fs.Base(outputFile.AbsPath)))
+						sourceIndex, ok = sourceAbsPaths[realPathKey]
+					}
+				}
+				if ok {
 					hint := ""
 					switch logger.API {
 					case logger.CLIAPI:
